@@ -401,6 +401,9 @@ def chord_instrument_to_notes(chord, voice, part_name, ins_idx, last_spelling=No
                 except:
                     voice.append(note.Rest(n.duration))
                     last_is_silence = True
+        if part.duration < chord.duration:
+            voice.append(note.Rest(chord.duration - part.duration))
+            last_is_silence = True
 
     else:
         voice.append(note.Rest(chord.duration))
